@@ -564,6 +564,10 @@ type c01Divergence struct {
 	EpochEnd         bool   `json:"at_last_block_of_epoch"`
 	RestartedInEpoch bool   `json:"restarted_in_this_epoch"`
 	BlocklistChanged bool   `json:"blocklist_changed_in_this_epoch"`
+	Rotation         bool   `json:"at_first_block_of_epoch"` // the committee is rotated in this block
+	RestartedPrev    bool   `json:"restarted_in_previous_epoch"`
+	BlocklistPrev    bool   `json:"blocklist_changed_in_previous_epoch"`
+	BlocklistBefore  bool   `json:"blocklist_changed_before"`
 	Signature        string `json:"signature"`
 }
 
@@ -665,8 +669,24 @@ func c01RunReplica(p c01Proto, rp c01Replica, src *c05Chain, blocks []*block.Blo
 		if e0-2 >= 0 && e0-2 < len(obs) {
 			d.BlocklistChanged = fmt.Sprint(obs[e0-2].Blocked) != fmt.Sprint(obs[i].Blocked)
 		}
-		d.Signature = fmt.Sprintf("fields=%s;keys=%s;epoch_end=%v;restarted_in_epoch=%v;blocklist_changed_in_epoch=%v;after_restart=%v",
-			strings.Join(d.Fields, ","), strings.Join(d.Keys, ","), d.EpochEnd, d.RestartedInEpoch, d.BlocklistChanged, after)
+		d.Rotation = h%csz == 0
+		for x := e0 - csz; x < e0; x++ {
+			if x >= 1 && restart[x] && rp.Store != "mem" {
+				d.RestartedPrev = true
+			}
+		}
+		if e0-csz-2 >= 0 && e0-2 < len(obs) {
+			d.BlocklistPrev = fmt.Sprint(obs[e0-csz-2].Blocked) != fmt.Sprint(obs[e0-2].Blocked)
+		}
+		// the running node keeps a next-epoch committee computed before a change of the block list for as long as
+		// nothing moves NEO: what matters is whether the list changed at any earlier height
+		for j := 1; j <= i; j++ {
+			if fmt.Sprint(obs[j-1].Blocked) != fmt.Sprint(obs[j].Blocked) {
+				d.BlocklistBefore = true
+			}
+		}
+		d.Signature = fmt.Sprintf("fields=%s;keys=%s;epoch_end=%v;restarted_in_epoch=%v;after_restart=%v;rotation=%v;restarted_in_prev_epoch=%v;blocklist_changed_before=%v",
+			strings.Join(d.Fields, ","), strings.Join(d.Keys, ","), d.EpochEnd, d.RestartedInEpoch, after, d.Rotation, d.RestartedPrev, d.BlocklistBefore)
 		return d
 	}
 	junkNonce := uint32(1 << 30)
